@@ -210,8 +210,10 @@ def report(prop, args, targets, results, sres, seed, t0):
         out_lines.append(f"CHECKER-ERROR property={prop} {e[:600]}")
 
     # obligations that fail and are listed as known findings are reported separately: they are neither claimed nor discharged
-    n_ob = len(obligations) - len(known_hits)
-    n_dis = sum(1 for oid, o in obligations.items() if o["status"] == "unsat" and oid not in known_hits)
+    # bounded stand-ins are run and reported, but never counted as obligations discharged by proof
+    bounded_ids = {oid for oid, o in obligations.items() if any(b.startswith("bounded") for b in o.get("backends", {}))}
+    n_ob = len(obligations) - len(known_hits) - len(bounded_ids)
+    n_dis = sum(1 for oid, o in obligations.items() if o["status"] == "unsat" and oid not in known_hits and oid not in bounded_ids)
     wall = time.time() - t0
     if not args.no_evidence and args.repo in ("/repo",):
         ev = {
@@ -231,6 +233,7 @@ def report(prop, args, targets, results, sres, seed, t0):
                 "samples": samples[:6] or [{"note": "no SMT sample (structural obligations only)"}],
                 "known_findings_matched": known_hits,
                 "obligations_failing_as_known_findings": len(known_hits),
+                "bounded_checks_run": {oid: obligations[oid]["status"].replace("unsat", "no failing input found").replace("sat", "failing input found") for oid in sorted(bounded_ids)},
                 "undecided": [u["oid"] for u in undecided],
                 "bounded": sres.get("bounded", []) + _bounded_notes(targets),
                 "not_covered": sres.get("not_covered", []),
